@@ -272,7 +272,9 @@ impl RustRuleEngine {
 
     /// Activate agenda group
     pub fn activate_agenda_group(&mut self, group: String) {
-        self.workflow_engine.activate_agenda_group(group.clone());
+        // Give the group the focus now, once. It must not also be queued in the workflow
+        // engine: the queue is replayed at the start of the next execute, which put the
+        // focus back on this group over any set/pop/clear focus call made in between.
         self.agenda_manager.set_focus(&group);
     }
 
